@@ -4,9 +4,27 @@ package faultio
 import (
 	"errors"
 	"io"
+	"os"
+	"syscall"
 )
 
 var ErrInjected = errors.New("faultio: injected I/O failure")
+
+// WellKnown: error values with a meaning of their own that real destinations and sources return
+// (a library must not mistake any of them for "nothing happened" or for the end of the data;
+// io.EOF itself is not among them).
+var WellKnown = []error{
+	ErrInjected, io.ErrShortWrite, io.ErrUnexpectedEOF, io.ErrClosedPipe, io.ErrNoProgress,
+	os.ErrDeadlineExceeded, os.ErrClosed, syscall.ENOSPC, syscall.EPIPE, syscall.EIO, io.ErrShortBuffer,
+}
+
+// ErrFor picks the error value for a fault at offset k (a pure function of k).
+func ErrFor(k int) error {
+	if k < 0 {
+		k = -k
+	}
+	return WellKnown[k%len(WellKnown)]
+}
 
 // Writer accepts Budget bytes in total and then fails. Short == true: the failing call
 // accepts what still fits and returns (k, err); Short == false: the failing call accepts
@@ -20,11 +38,19 @@ type Writer struct {
 	Failures  int
 	Accepted  []byte
 	Failed    bool
+	Err       error // the error value returned (nil: ErrInjected)
+}
+
+func (w *Writer) err() error {
+	if w.Err != nil {
+		return w.Err
+	}
+	return ErrInjected
 }
 
 func (w *Writer) Write(p []byte) (int, error) {
 	if w.Failed && !w.Transient {
-		return 0, ErrInjected
+		return 0, w.err()
 	}
 	room := w.Budget - len(w.Accepted)
 	if len(p) <= room || (w.Transient && w.Failed) {
@@ -35,13 +61,13 @@ func (w *Writer) Write(p []byte) (int, error) {
 	w.Failures++
 	if w.Full {
 		w.Accepted = append(w.Accepted, p...)
-		return len(p), ErrInjected
+		return len(p), w.err()
 	}
 	if w.Short {
 		w.Accepted = append(w.Accepted, p[:room]...)
-		return room, ErrInjected
+		return room, w.err()
 	}
-	return 0, ErrInjected
+	return 0, w.err()
 }
 
 // FailingReader delivers Data[:FailAt] and then returns a sticky non-EOF error.
@@ -54,6 +80,14 @@ type FailingReader struct {
 	Together bool
 	pos      int
 	Calls    int
+	Err      error // the error value returned (nil: ErrInjected)
+}
+
+func (r *FailingReader) err() error {
+	if r.Err != nil {
+		return r.Err
+	}
+	return ErrInjected
 }
 
 func (r *FailingReader) Read(p []byte) (int, error) {
@@ -62,12 +96,12 @@ func (r *FailingReader) Read(p []byte) (int, error) {
 		return 0, nil
 	}
 	if r.pos >= r.FailAt {
-		return 0, ErrInjected
+		return 0, r.err()
 	}
 	n := copy(p, r.Data[r.pos:r.FailAt])
 	r.pos += n
 	if r.pos >= r.FailAt && r.Together {
-		return n, ErrInjected
+		return n, r.err()
 	}
 	return n, nil
 }
